@@ -536,11 +536,23 @@ def gen_filter_program(rng: random.Random, k: int) -> FilterProgram:
         elif op == "short":  # Msg is a prefix of every other message name
             try_rename(b, rng.choice(["Msg", "M", "Ms"]), "short-prefix", None)
         elif op == "samename":
-            # nested message b gets the simple name of message a that lives in another scope
-            if b.parent is not None and a.parent is not b.parent and a not in _ancestors(b) and b not in _ancestors(a):
+            # a nested message b gets the simple name of a message a that lives in another scope (-F selects both)
+            nest = [m for m in cands if m.parent is not None]
+            rng.shuffle(nest)
+            done = False
+            for b in nest:
                 top_b = _ancestors(b)[-1]
-                if not any(x is a for x in _refs_inside(top_b)) and a.parent not in _ancestors(b):
-                    try_rename(b, a.name, "same-simple-name", a)
+                inside = _refs_inside(top_b)
+                for a in rng.sample(cands, len(cands)):
+                    if a is b or a.parent is b.parent or a in _ancestors(b) or b in _ancestors(a) or a.parent in _ancestors(b):
+                        continue
+                    if any(x is a for x in inside):
+                        continue  # a bare reference to `a` from inside b's tree would be captured by the new name
+                    if try_rename(b, a.name, "same-simple-name", a):
+                        done = True
+                        break
+                if done:
+                    break
     fp.main = main
     fp.files = print_files(main, 1000 + k)
     return fp
@@ -612,6 +624,8 @@ def pick_subsets(rng: random.Random, fp: FilterProgram, n: int) -> List[Tuple[st
         text = sep.join(names)
         if sep != "," and rng.random() < 0.5:
             text = " " + text + " "
+        elif rng.random() < 0.08:
+            text = text + ","  # an empty item names no message
         res.append((kind, names, text))
     return res
 
@@ -701,6 +715,9 @@ def compare_filtered(fp: FilterProgram, lang: str, ref: Dict[str, Any], std: Opt
             bad.append({"what": ".c text outside function definitions differs from -O without -F", **first_diff(ref["crest"], got["crest"])})
         if got["hrest"] != ref["hrest"]:
             bad.append({"what": ".h declarations (non-prototype part) differ from -O without -F", **first_diff(ref["hrest"], got["hrest"])})
+        hp = sorted(nk(p[0]) for p in got["protos"])
+        if model_ok and hp != want:
+            bad.append({"what": "set of Encode/Decode prototypes in the header", "expected": [str(x) for x in want], "observed": hp})
         pnames = sorted(p[0] for p in got["protos"])
         dnames = sorted(f[0] for f in got["funcs"])
         if pnames != dnames:
@@ -816,7 +833,7 @@ def eval_filter_entry(run: common.Run, en: Dict[str, Any]) -> None:
             if any(m.parent is not None for m in sel):
                 run.count("d.selected.has_nested")
             if text != ",".join(names):
-                run.count("d.names_with_blanks")
+                run.count("d.names_with_blanks_or_empty_item")
             run.nontrivial(("d", lang, e, kind, bool(fp.prefix), tuple(sorted(fp.relations)), len(sel), len(msgs),
                             any(m.parent is not None for m in sel), text != ",".join(names)))
             run.sample({"part": "d", "argv": inv.argv, "reference_argv": ref.argv, "messages": [".".join(G.scope_names(m)) for m in msgs]}, limit=4)
@@ -895,17 +912,17 @@ def check_markers(run: common.Run, rng: random.Random, pool: Pool, ncase: int, c
             k += 1
             family = "single" if rng.random() < 0.8 else "many"
             if family == "single":
-                top = base_program(rng, False, rng.choice([(0, 1), (1, 3), (2, 3)]), rng.choice([64, 200]), options=rng.random() < 0.3)
+                top = base_program(rng, False, rng.choice([(0, 1), (1, 3), (2, 3), (2, 3)]), rng.choice([64, 200]), options=rng.random() < 0.3)
                 for f in top.all_files():  # a planted marker adds 16 bits: no max_bytes constraints here
                     for m in f.messages():
                         m.options = []
-                wrapped = rng.random() < 0.35
+                wrapped = rng.random() < 0.45
                 if wrapped:
                     top = wrap(rng, top)
                 sites = plant_sites(top)
                 # choose depth class, then kind, then site: imported files and rare kinds are not starved
                 dcs = sorted({s[1] for s in sites})
-                dc = rng.choice(dcs)
+                dc = rng.choices(dcs, weights=[(1.0, 1.5, 2.5)[d] for d in dcs])[0]
                 kinds = sorted({s[0] for s in sites if s[1] == dc})
                 kind = rng.choice(kinds)
                 site = rng.choice([s for s in sites if s[1] == dc and s[0] == kind])
@@ -969,7 +986,7 @@ def check_markers(run: common.Run, rng: random.Random, pool: Pool, ncase: int, c
 SIZES = {
     # (filter programs, subsets per program, all endians, marker cases)
     "quick": (26, 4, False, 110),
-    "thorough": (300, 6, True, 1500),
+    "thorough": (180, 6, True, 900),
 }
 
 
